@@ -3,6 +3,26 @@ from regkit import corrupt_field
 
 CHECKS = {}
 
+
+def _corrupt_first(pred, change):
+    """binding self-test corruptor: change the first event satisfying pred"""
+    def cor(evs):
+        for i, e in enumerate(evs):
+            if e.get("op") not in (None, "reset") and pred(e):
+                change(e)
+                return i
+        return None
+    return cor
+
+
+def _flip_first_bit(e):
+    e["st"][0] = not e["st"][0]
+
+
+def _bump_length(e):
+    e["length"] += 1
+
+
 # ------------------------------------------------------------------------------------ C39
 CHECKS["C39"] = dict(
     modules=["bitvector"], level="model_checking", driver="bitvecdrv",
@@ -27,7 +47,7 @@ CHECKS["C39"] = dict(
                   dict(mode="sim", spec="BitVectorGen.tla", cfg="BitVectorGenSim.cfg", depth=8, num=80, max=5000, name="walks"),
                   dict(mode="sim", spec="BitVectorGen.tla", cfg="BitVectorGenBig.cfg", depth=8, num=60, max=3000, salt=1, name="walks-big")]),
     judge=dict(spec="BitVectorTrace.tla", cfg="BitVectorTrace.cfg"),
-    corrupt=corrupt_field("get", "res", lambda e: not e["res"]),
+    corrupt=_corrupt_first(lambda e: e.get("err") == "" and len(e.get("st", [])) > 0, _flip_first_bit),   # one recorded Get result
     nontrivial=lambda s: any(o["op"] in ("set", "unset", "setbytes", "unsetbytes") for o in s["ops"]),
     rule="TLC-generated operation sequences, each starting with New(n) or NewFromBytes(pattern, n) (n in 1..24 and {63,64,65,511,512}, "
          "0..2 bytes of slack); distinct = distinct operation sequence; non-trivial = contains at least one mutation",
@@ -106,7 +126,7 @@ CHECKS["C21"] = dict(
                   dict(mode="edges", spec="PSliceGen.tla", cfg="PSliceGenConcEdges.cfg", depth=5, max=1000, name="conc-edges"),
                   dict(mode="sim", spec="PSliceGen.tla", cfg="PSliceGenConcSim.cfg", depth=10, num=40, max=300, salt=3, name="conc-walks")]),
     judge=dict(spec="PSliceTrace.tla", cfg="PSliceTrace.cfg"),
-    corrupt=corrupt_field("exists", "res", lambda e: not e["res"]),
+    corrupt=_corrupt_first(lambda e: not e.get("panicked") and "length" in e, _bump_length),   # the recorded Length()
     nontrivial=lambda s: any(o["op"] in ("add", "remove", "iterupd", "conc") for o in s["ops"]) and len(s["ops"]) > 1,
     rule="TLC-generated histories over 6 peers (two bins with two peers, proximity above the last bin included): edges mode = one shortest "
          "history per (model state, operation) pair of the complete state graph; walks = -simulate with maxBins 4 and 32; conc = histories "
